@@ -28,6 +28,69 @@ use roaring::RoaringBitmap;
 
 const DELETED_VAL: u64 = 999_999; // placeholder for the data of a deleted physical row (never observable)
 
+/// compact list notation (shadows the plain parser of hcommon; a superset): `-` | items separated by commas, an item is
+/// `n`, `a..b` (a, a+1, …, b) or `v*n` (n copies of v)
+fn parse_nat_list(s: &str) -> Option<Vec<u64>> {
+    if s == "-" {
+        return Some(vec![]);
+    }
+    let mut out = vec![];
+    for t in s.split(',') {
+        if let Some((a, b)) = t.split_once("..") {
+            let (a, b): (u64, u64) = (a.parse().ok()?, b.parse().ok()?);
+            if a > b || b - a > 100_000 {
+                return None;
+            }
+            out.extend(a..=b);
+        } else if let Some((v, n)) = t.split_once('*') {
+            let (v, n): (u64, u64) = (v.parse().ok()?, n.parse().ok()?);
+            if n > 100_000 {
+                return None;
+            }
+            out.extend(std::iter::repeat(v).take(n as usize));
+        } else {
+            out.push(t.parse().ok()?);
+        }
+    }
+    Some(out)
+}
+
+/// canonical compact form: ascending runs of >= 3 as `a..b`, constant runs of >= 3 as `v*n`
+fn show_compact(v: &[u64]) -> String {
+    if v.is_empty() {
+        return "-".into();
+    }
+    let mut items: Vec<String> = vec![];
+    let mut i = 0;
+    while i < v.len() {
+        let mut j = i;
+        while j + 1 < v.len() && v[j + 1] == v[j] + 1 {
+            j += 1;
+        }
+        if j - i >= 2 {
+            items.push(format!("{}..{}", v[i], v[j]));
+            i = j + 1;
+            continue;
+        }
+        let mut j = i;
+        while j + 1 < v.len() && v[j + 1] == v[i] {
+            j += 1;
+        }
+        if j - i >= 2 {
+            items.push(format!("{}*{}", v[i], j - i + 1));
+            i = j + 1;
+            continue;
+        }
+        items.push(v[i].to_string());
+        i += 1;
+    }
+    items.join(",")
+}
+
+fn derived_xs(ks: &[u64]) -> Vec<u64> {
+    ks.iter().map(|k| if *k == DELETED_VAL { DELETED_VAL } else { (k * 7 + 3) % 50 }).collect()
+}
+
 #[derive(Clone, Debug, PartialEq)]
 struct FragInfo {
     id: u64,
@@ -40,6 +103,34 @@ struct FragInfo {
 }
 
 impl FragInfo {
+    /// compact form used by the large-fragment family
+    fn line_compact(&self) -> String {
+        format!(
+            "frag {} {} {} {} {} {}",
+            self.id,
+            self.nphys,
+            show_compact(&self.dv),
+            show_compact(&self.ks),
+            if self.xs == derived_xs(&self.ks) { "=".to_string() } else { show_compact(&self.xs) },
+            show_compact(&self.rowids)
+        )
+    }
+
+    /// does an op line `frag …` describe exactly this fragment (in whatever notation)?
+    fn matches(&self, toks: &[&str]) -> bool {
+        if toks.len() != 7 {
+            return false;
+        }
+        let ks = parse_nat_list(toks[4]);
+        let xs = if toks[5] == "=" { ks.as_ref().map(|k| derived_xs(k)) } else { parse_nat_list(toks[5]) };
+        toks[1].parse::<u64>().ok() == Some(self.id)
+            && toks[2].parse::<u64>().ok() == Some(self.nphys)
+            && parse_nat_list(toks[3]).as_ref() == Some(&self.dv)
+            && ks.as_ref() == Some(&self.ks)
+            && xs.as_ref() == Some(&self.xs)
+            && parse_nat_list(toks[6]).as_ref() == Some(&self.rowids)
+    }
+
     fn line(&self) -> String {
         format!(
             "frag {} {} {} {} {} {}",
@@ -81,6 +172,7 @@ struct C15 {
     poisoned: bool,
     /// worker thread (own runtime) that executes the random-access calls, so that the main thread can time out
     worker: Option<(std::sync::mpsc::Sender<(Dataset, String, Req)>, std::sync::mpsc::Receiver<Outcome>)>,
+    map_worker: Option<MapWorker>,
 }
 
 fn schema() -> Arc<Schema> {
@@ -264,7 +356,7 @@ impl Outcome {
 impl C15 {
     fn new() -> Self {
         let rt = tokio::runtime::Builder::new_current_thread().enable_all().build().unwrap();
-        C15 { rt, ds: None, stable: false, next_k: 0, layout: None, scan: None, frag_idx: 0, synth: None, poisoned: false, worker: None }
+        C15 { rt, ds: None, stable: false, next_k: 0, layout: None, scan: None, frag_idx: 0, synth: None, poisoned: false, worker: None, map_worker: None }
     }
 
     fn reset(&mut self) {
@@ -301,7 +393,7 @@ impl C15 {
                 let stable = *stable == "1";
                 let n: usize = n.parse().map_err(|_| "parse")?;
                 let maxrows: usize = maxrows.parse().map_err(|_| "parse")?;
-                if n == 0 || n > 64 || maxrows == 0 {
+                if n == 0 || n > 4096 || maxrows == 0 {
                     return Err("range".into());
                 }
                 self.next_k = 0;
@@ -571,25 +663,47 @@ impl C15 {
     }
 }
 
-fn run_mapper(kind: &str, dv: &[u64], offs: &[u64]) -> Result<Vec<u64>, String> {
-    let dvv = if kind == "S" {
-        DeletionVector::Set(dv.iter().map(|x| *x as u32).collect::<HashSet<u32>>())
-    } else {
-        DeletionVector::Bitmap(dv.iter().map(|x| *x as u32).collect::<RoaringBitmap>())
-    };
-    let offs: Vec<u32> = offs.iter().map(|x| *x as u32).collect();
-    let (tx, rx) = std::sync::mpsc::channel();
-    std::thread::spawn(move || {
-        let r = catch_unwind(AssertUnwindSafe(|| {
-            let mut m = OffsetMapper::new(Arc::new(dvv));
-            offs.iter().map(|o| m.map_offset(*o) as u64).collect::<Vec<u64>>()
-        }));
-        let _ = tx.send(r.map_err(panic_msg));
-    });
-    match rx.recv_timeout(std::time::Duration::from_secs(3)) {
-        Ok(Ok(v)) => Ok(v),
-        Ok(Err(m)) => Err(format!("panic {m}")),
-        Err(_) => Err("noreturn".into()),
+type MapJob = (bool, Vec<u32>, Vec<u32>);
+
+/// persistent worker for the pure OffsetMapper calls (so that a spinning `map_offset` can be timed out)
+struct MapWorker {
+    tx: std::sync::mpsc::Sender<MapJob>,
+    rx: std::sync::mpsc::Receiver<Result<Vec<u64>, String>>,
+}
+
+impl MapWorker {
+    fn new() -> Self {
+        let (tx, rx_job) = std::sync::mpsc::channel::<MapJob>();
+        let (tx_res, rx) = std::sync::mpsc::channel();
+        std::thread::spawn(move || {
+            while let Ok((set, dv, offs)) = rx_job.recv() {
+                let r = catch_unwind(AssertUnwindSafe(|| {
+                    let dvv = if set {
+                        DeletionVector::Set(dv.iter().copied().collect::<HashSet<u32>>())
+                    } else {
+                        DeletionVector::Bitmap(dv.iter().copied().collect::<RoaringBitmap>())
+                    };
+                    let mut m = OffsetMapper::new(Arc::new(dvv));
+                    offs.iter().map(|o| m.map_offset(*o) as u64).collect::<Vec<u64>>()
+                }));
+                if tx_res.send(r.map_err(panic_msg)).is_err() {
+                    break;
+                }
+            }
+        });
+        MapWorker { tx, rx }
+    }
+
+    fn run(&self, kind: &str, dv: &[u64], offs: &[u64]) -> Result<Vec<u64>, String> {
+        let job = (kind == "S", dv.iter().map(|x| *x as u32).collect(), offs.iter().map(|x| *x as u32).collect());
+        if self.tx.send(job).is_err() {
+            return Err("noreturn".into());
+        }
+        match self.rx.recv_timeout(std::time::Duration::from_secs(5)) {
+            Ok(Ok(v)) => Ok(v),
+            Ok(Err(m)) => Err(format!("panic {m}")),
+            Err(_) => Err("noreturn".into()),
+        }
     }
 }
 
@@ -622,7 +736,9 @@ impl Prop for C15 {
     }
 
     fn rule(&self) -> String {
-        "every 8th case is an end-to-end history on a memory:// dataset (create 1-14 rows over 1-4 fragments, then 0-5 of append / \
+        "every 32nd case is a large-fragment history with stable row ids (1-2 fragments of 64-200 rows; 2-5 sparse deletions per step - adjacent pairs, far pairs, runs of three, scattered - \
+         so that the index stores addresses as ranges with holes; in a quarter each after a compaction (ids != addresses) or after an update that moves rows to a new fragment), followed by take_rows of every live id, take of every offset, \
+         RowIdIndex::get of every live and deleted id, and take_rows / take / take-by-address of the rows right behind each deleted row; every 8th case is an end-to-end history on a memory:// dataset (create 1-14 rows over 1-4 fragments, then 0-5 of append / \
          delete ~35% of the keys / update / compact, stable row ids on in half of them); its layout (fragment ids, physical rows, deletion \
          vectors, row id sequences, data per physical row) is read back from the manifest and given to the model, followed by count, scan, \
          6-10 take / take_rows / take-by-address / RowIdIndex::get calls under random projections of k, x, _rowaddr, _rowid with key lists \
@@ -636,6 +752,7 @@ impl Prop for C15 {
 
     fn gen_case(&mut self, r: &mut Rng, _tier: Tier, idx: usize) -> Vec<String> {
         match idx % 8 {
+            0 if idx % 32 == 16 => self.gen_big(r),
             0 => self.gen_e2e(r),
             4 => gen_synth(r),
             _ => gen_map(r),
@@ -689,7 +806,11 @@ impl Prop for C15 {
                                 if !f.dv.is_empty() {
                                     any_deletion = true;
                                 }
-                                format!("{} live={}", f.line(), f.live)
+                                if f.matches(&toks) {
+                                    format!("{} live={}", toks.join(" "), f.live)
+                                } else {
+                                    format!("{} live={}", f.line_compact(), f.live)
+                                }
                             }
                             None => "missing".into(),
                         }
@@ -865,7 +986,11 @@ impl Prop for C15 {
                             any_multi = true;
                         }
                         res.tags.push(format!("map:{kind}"));
-                        let mapped = if self.poisoned { Err("skipped".to_string()) } else { run_mapper(kind, &dv, &offs) };
+                        let mapped = if self.poisoned {
+                            Err("skipped".to_string())
+                        } else {
+                            self.map_worker.get_or_insert_with(MapWorker::new).run(kind, &dv, &offs)
+                        };
                         match mapped {
                             Ok(v) => {
                                 let dvs: HashSet<u64> = dv.iter().copied().collect();
@@ -1122,6 +1247,133 @@ impl C15 {
         }
         if r.chance(5, 100) {
             lines.push("takerows k,x 1".into()); // malformed
+        }
+        self.reset();
+        lines
+    }
+}
+
+impl C15 {
+    /// large fragments with a few sparse deletions (the address segments of the row id index become ranges with holes),
+    /// stable row ids on; optionally after a compaction (ids != addresses) or an update (rows moved to a new fragment).
+    /// Every live id, every offset, and in particular the rows right behind each deleted row are taken.
+    fn gen_big(&mut self, r: &mut Rng) -> Vec<String> {
+        self.reset();
+        let mut lines = vec![];
+        let nfr = r.range(1, 2);
+        let per = r.range(64, 200);
+        let n = per * nfr - if nfr > 1 { r.below(per / 2) } else { 0 };
+        let mut live_ks: Vec<u64> = (0..n).collect();
+        let mut push = |s: &mut C15, l: String, lines: &mut Vec<String>| {
+            let t: Vec<&str> = l.split(' ').collect();
+            let _ = s.hist(&t[1..]);
+            lines.push(l);
+        };
+        push(self, format!("hist create 1 {n} {per}"), &mut lines);
+        // 2-5 sparse keys out of `ks` (in order): adjacent pairs, far pairs, a run of three, scattered
+        let sparse = |r: &mut Rng, ks: &[u64]| -> Vec<u64> {
+            let m = ks.len();
+            if m < 8 {
+                return vec![];
+            }
+            let mut pos: Vec<usize> = match r.below(5) {
+                0 => {
+                    let a = r.usize(m - 1);
+                    vec![a, a + 1]
+                }
+                1 => {
+                    let a = r.usize(m / 2);
+                    vec![a, a + m / 3]
+                }
+                2 => {
+                    let a = r.usize(m - 2);
+                    vec![a, a + 1, a + 2]
+                }
+                3 => {
+                    let a = r.usize(m / 2);
+                    vec![a, a + 1, a + m / 3, (a + m / 3 + 1).min(m - 1)]
+                }
+                _ => (0..r.range(2, 5)).map(|_| r.usize(m)).collect(),
+            };
+            pos.sort();
+            pos.dedup();
+            pos.into_iter().map(|p| ks[p]).collect()
+        };
+        let variant = r.below(4);
+        if variant == 2 {
+            // compaction first: afterwards the row ids of a fragment no longer equal its offsets
+            let d = sparse(r, &live_ks);
+            if !d.is_empty() {
+                live_ks.retain(|k| !d.contains(k));
+                push(self, format!("hist delete {}", show_compact(&d)), &mut lines);
+            }
+            push(self, format!("hist compact {} 1", 2 * n), &mut lines);
+        }
+        if variant == 3 {
+            let u = sparse(r, &live_ks);
+            if !u.is_empty() {
+                push(self, format!("hist update {} {}", show_compact(&u), 100 + r.below(50)), &mut lines);
+            }
+        }
+        for _ in 0..r.range(1, 2) {
+            let d = sparse(r, &live_ks);
+            if !d.is_empty() {
+                live_ks.retain(|k| !d.contains(k));
+                push(self, format!("hist delete {}", show_compact(&d)), &mut lines);
+            }
+        }
+        let layout = catch_unwind(AssertUnwindSafe(|| self.real_layout())).unwrap_or(Err("panic".into())).unwrap_or_default();
+        let scan = catch_unwind(AssertUnwindSafe(|| self.real_scan())).unwrap_or(Err("panic".into())).unwrap_or_default();
+        lines.push(format!("ds 1 {}", layout.len()));
+        for f in &layout {
+            lines.push(f.line_compact());
+        }
+        lines.push("count".into());
+        lines.push("scan".into());
+        let total = scan.len() as u64;
+        let ids: Vec<u64> = scan.iter().map(|x| x.rowid).collect();
+        // rows right behind a deleted row: their ids, offsets and addresses; and the ids of the deleted rows
+        let by_addr: HashMap<u64, usize> = scan.iter().enumerate().map(|(i, x)| (x.addr, i)).collect();
+        let mut behind: Vec<usize> = vec![];
+        let mut deleted_ids: Vec<u64> = vec![];
+        for f in &layout {
+            for d in &f.dv {
+                if let Some(i) = f.rowids.get(*d as usize) {
+                    deleted_ids.push(*i);
+                }
+                let mut o = d + 1;
+                while o < f.nphys && f.dv.contains(&o) {
+                    o += 1;
+                }
+                if let Some(i) = by_addr.get(&((f.id << 32) | o)) {
+                    behind.push(*i);
+                }
+            }
+        }
+        behind.sort();
+        behind.dedup();
+        let b_ids: Vec<u64> = behind.iter().map(|i| scan[*i].rowid).collect();
+        let b_offs: Vec<u64> = behind.iter().map(|i| *i as u64).collect();
+        let b_addrs: Vec<u64> = behind.iter().map(|i| scan[*i].addr).collect();
+        if total > 0 {
+            lines.push(format!("takerows ia {}", show_compact(&ids)));
+            lines.push(format!("take ka {}", show_compact(&(0..total).collect::<Vec<_>>())));
+            let mut all: Vec<u64> = ids.clone();
+            all.extend(deleted_ids.iter().copied());
+            lines.push(format!("idx {}", show_compact(&all)));
+        }
+        if !behind.is_empty() {
+            lines.push(format!("takerows ki {}", show_compact(&b_ids)));
+            let mut rev = b_ids.clone();
+            rev.reverse();
+            lines.push(format!("takerows ia {}", show_compact(&rev)));
+            lines.push(format!("takerows k {}", b_ids[r.usize(b_ids.len())]));
+            lines.push(format!("take ki {}", show_compact(&b_offs)));
+            lines.push(format!("takeaddr ki {}", show_compact(&b_addrs)));
+            let mut mixed = b_ids.clone();
+            mixed.extend(deleted_ids.iter().copied());
+            shuffle(r, &mut mixed);
+            lines.push(format!("takerows ki {}", show_compact(&mixed)));
         }
         self.reset();
         lines
